@@ -16,6 +16,7 @@ import OdmlModel.Proofs.XmlRoundTree
 import OdmlModel.Proofs.XmlRoundDenote
 import OdmlModel.Proofs.XmlRoundWritten
 import OdmlModel.Proofs.XmlRefuse
+import OdmlModel.Proofs.XmlTok
 
 set_option linter.unusedSimpArgs false
 
@@ -99,7 +100,7 @@ theorem csv_legacy_counterexample_empty :
 
 /-- ints of any size: `int(str(i)) = i`, and `str(i)` survives the trimming of `to_csv`. -/
 theorem int_text_roundtrip (lib : TokLib) (i : Int) :
-    parseInt (intToStr i) = some i ∧ strip (intToStr i) = intToStr i ∧
+    Xml.parseInt (intToStr i) = some i ∧ strip (intToStr i) = intToStr i ∧
     getTyped lib "int".toList (strip (valStr (.int i))) = .ok (.int i) :=
   ⟨parseInt_intToStr i, strip_intToStr i, getTyped_int lib _ i (by decide)⟩
 
@@ -548,5 +549,86 @@ theorem xml_roundtrip_or_refused (m : Mode) (lib : TokLib) (d : DocT) (hwf : wfD
 theorem xml_refused_iff_not_repr (lib : TokLib) (d : DocT) (hwf : wfDoc lib d = true)
     (hn : xmlReprU d = true) : docRefused d = false ↔ xmlRepr d = true :=
   ⟨xmlRepr_of_not_refused lib d hwf hn, not_refused_of_xmlRepr d⟩
+
+/-! ## 8. Typed values handed over as objects (round 4): the token contract made concrete
+
+`xml_roundtrip` asks of a stored date / time / datetime value that its text re-types to itself
+(`valOk`, `tokOk lib`).  With the library's own converters as `lib` (`stdLib`: the `strptime` models)
+this holds for **every** `datetime.time / datetime / date` object a caller can hand over - time zone
+aware or not, with microseconds, with `fold` -, because `time_get / datetime_get / date_get` store
+the naive, whole-second value the format can express.  The counterexamples say what would happen to
+an object stored as it came. -/
+
+/-- A `datetime.time` of any shape is stored as a value the XML form carries: `time_get` yields
+    the time without microseconds, offset and fold, and the text of that value is trimmed, not
+    empty and read back (`dtypes.get(text, "time")`) as the same text. -/
+theorem time_object_value_ok (o : TimeObj) (h : o.t.valid = true) :
+    ∃ s, timeGetObj o = some s ∧ s = { o.t with us := 0 } ∧
+      valOk stdLib "time".toList (.tok s.iso) = true := by
+  refine ⟨{ o.t with us := 0 }, XmlTok.timeGetObj_eq o h, rfl, ?_⟩
+  have hv := XmlTok.valid_us0 h
+  have hus : ({ o.t with us := 0 } : Time).us = 0 := rfl
+  have h1 := XmlTok.stdTok_time hv hus
+  have hiso := XmlTok.iso_of_us0 hus
+  have hne : (({ o.t with us := 0 } : Time).iso).isEmpty = false := by
+    rw [hiso]; cases hh : ({ o.t with us := 0 } : Time).hms with
+    | nil => exact absurd hh (XmlTok.hms_ne_nil _)
+    | cons _ _ => rfl
+  have hst : strip ({ o.t with us := 0 } : Time).iso = ({ o.t with us := 0 } : Time).iso := by
+    rw [hiso]; exact XmlTok.strip_hms _
+  have hk : tokKinds.contains "time" = true := by decide
+  have hd : String.ofList "time".toList = "time" := by decide
+  simp only [valOk, hk, Bool.true_and, tokOk, hd, stdLib, h1, hne, hst, Bool.not_false, beq_self_eq_true,
+    Bool.and_self]
+
+/-- The same for a `datetime.datetime` of any shape: `datetime_get` builds the naive datetime of
+    the six fields of the format. -/
+theorem datetime_object_value_ok (o : DateTimeObj) (h : o.x.valid = true) :
+    ∃ s, datetimeGetObj o = some s ∧ s = ⟨o.x.date, { o.x.time with us := 0 }⟩ ∧
+      valOk stdLib "datetime".toList (.tok s.str) = true := by
+  refine ⟨⟨o.x.date, { o.x.time with us := 0 }⟩, rfl, rfl, ?_⟩
+  simp only [DateTime.valid, Bool.and_eq_true] at h
+  have hv : (⟨o.x.date, { o.x.time with us := 0 }⟩ : DateTime).valid = true := by
+    simp only [DateTime.valid, Bool.and_eq_true]; exact ⟨h.1, XmlTok.valid_us0 h.2⟩
+  have hus : (⟨o.x.date, { o.x.time with us := 0 }⟩ : DateTime).time.us = 0 := rfl
+  have h1 := XmlTok.stdTok_datetime hv hus
+  have hne : ((⟨o.x.date, { o.x.time with us := 0 }⟩ : DateTime).str).isEmpty = false := by
+    cases hh : (⟨o.x.date, { o.x.time with us := 0 }⟩ : DateTime).str with
+    | nil => exact absurd hh (XmlTok.dtStr_ne_nil _)
+    | cons _ _ => rfl
+  have hst := XmlTok.strip_dtStr (x := ⟨o.x.date, { o.x.time with us := 0 }⟩) hus
+  have hk : tokKinds.contains "datetime" = true := by decide
+  have hd : String.ofList "datetime".toList = "datetime" := by decide
+  simp only [valOk, hk, Bool.true_and, tokOk, hd, stdLib, h1, hne, hst, Bool.not_false, beq_self_eq_true,
+    Bool.and_self]
+
+/-- ... and for a `datetime.date` (also the Document's `date`). -/
+theorem date_object_value_ok (d : Date) (h : d.valid = true) :
+    dateGetObj d = some d ∧ valOk stdLib "date".toList (.tok d.iso) = true ∧
+      dateOk stdLib (some d.iso) = true := by
+  have h1 := XmlTok.stdTok_date h
+  have hne : d.iso.isEmpty = false := by
+    cases hh : d.iso with
+    | nil => exact absurd hh (XmlTok.dateIso_ne_nil _)
+    | cons _ _ => rfl
+  have hst := XmlTok.strip_dateIso d
+  have hk : tokKinds.contains "date" = true := by decide
+  have hd : String.ofList "date".toList = "date" := by decide
+  refine ⟨DT.parseDate_iso h, ?_, ?_⟩
+  · simp only [valOk, hk, Bool.true_and, tokOk, hd, stdLib, h1, hne, hst, Bool.not_false, beq_self_eq_true,
+      Bool.and_self]
+  · simp only [dateOk, tokOk, stdLib, h1, hne, hst, Bool.not_false, beq_self_eq_true, Bool.and_self]
+
+/-- Why the conversion matters: the own text of a time zone aware time (`10:15:30+00:00`) is not
+    a text the reader takes for a time - stored as it came, the written file could not be loaded. -/
+theorem aware_time_text_counterexample :
+    (timeGetObj ⟨⟨10, 15, 30, 0⟩, some ⟨false, 0⟩, false⟩).map Time.iso = some "10:15:30".toList ∧
+    stdTok "time" (TimeObj.str ⟨⟨10, 15, 30, 0⟩, some ⟨false, 0⟩, false⟩) = none := by decide
+
+/-- ... nor is the text of a time with microseconds, or of an aware datetime. -/
+theorem subsecond_time_text_counterexample :
+    stdTok "time" (TimeObj.str ⟨⟨12, 0, 0, 250000⟩, none, false⟩) = none ∧
+    stdTok "datetime" (DateTimeObj.str ⟨⟨⟨2020, 1, 2⟩, ⟨3, 4, 5, 0⟩⟩, some ⟨true, 19800⟩, false⟩) = none ∧
+    dateGetDateTimeObj ⟨⟨⟨2020, 1, 2⟩, ⟨3, 4, 5, 0⟩⟩, none, false⟩ = none := by decide
 
 end C01
